@@ -526,7 +526,9 @@ def gen_random_mdp(rng, tier, tweak):
                             proper=(gamma == "1"), min_states=min(nm, rng.choice([1, 2, 3, 4])))
     nonpos = F(m["gamma"]) == 1 or shape != "dense" or not any(F(r) > 0 for r in m["reward"].values())
     u = rng.random()
-    if u < .10:
+    if F(m["gamma"]) == 1 and rng.random() < .3:
+        tweak["slow_exit"] = add_slow_exit(rng, m)
+    elif u < .10:
         tweak["extreme_probs"] = extreme_probs(rng, m)
     elif u < .20:
         tweak["reward_scale"] = rng.choice([1000, 10**5])
